@@ -6,6 +6,7 @@ use serde_json::{json, Value};
 use std::io::Read;
 
 mod c01;
+mod c04;
 mod c12;
 mod c16;
 mod c17;
@@ -39,6 +40,7 @@ fn main() {
         "c17_parse" => c17::parse(&v),
         "c17_remap" => c17::remap(&v),
         "c01_added_lines" => c01::added_lines(&v),
+        "c04_split" => c04::split(&v),
         "c12_profile" => c12::profile(&v),
         "c16_tokenize" => c16::tokenize(&v),
         "c16_lines" => c16::lines(&v),
